@@ -1,6 +1,6 @@
-From InfOCF Require Import Core Tol TolExt Form Model PyLib TieLib.
+From InfOCF Require Import Core Tol TolExt Form Model Thm06 PyLib TieLib TieSolver.
 From InfOCFGen Require Import SrcCond SrcCons.
-From Coq Require Import ZArith.
+From Coq Require Import ZArith Permutation.
 (* TIE: the functions GENERATED from inference/consistency_sat.py (gen/SrcCons.v) equal the hand-written
    model of the consistency test (Model.consistency = Tol.tol_loop / tol_loop_ext), for every signature
    size, base and mode; in particular the translated `while True` loop terminates within |D|+1 rounds. *)
@@ -154,3 +154,38 @@ Proof. destruct (tie_consistency_loop weakly d u) as [st H]. eexists. exists st.
   pose proof (loop_c_model weakly (length d) (dict_values d)) as E.
   destruct weakly; rewrite <- E; destruct (loop_c _ (length d) (dict_values d)); reflexivity. Qed.
 End TieCons.
+
+Section TieConsTop.
+Variable n : nat.
+Notation W := (worlds n).
+(* what the generated consistency() returned is the model's partition *)
+Lemma src_partition weakly (d:dict Z cond) u Pc st :
+  py_consistency n (S (length d)) (Build_pybase d) u weakly = Return (PVal Pc, st) ->
+  consistency n weakly (dict_values d) = Some (acP Pc).
+Proof. intros H. destruct (tie_consistency n weakly d u) as [r [st' [Hrun Hres]]].
+  rewrite H in Hrun. injection Hrun as <- _. cbn [pres_map] in Hres.
+  destruct (consistency n weakly (dict_values d)); cbn [res_of] in Hres; [|discriminate].
+  injection Hres as <-. reflexivity. Qed.
+Lemma src_inconsistent weakly (d:dict Z cond) u st :
+  py_consistency n (S (length d)) (Build_pybase d) u weakly = Return (PFalse, st) ->
+  consistency n weakly (dict_values d) = None.
+Proof. intros H. destruct (tie_consistency n weakly d u) as [r [st' [Hrun Hres]]].
+  rewrite H in Hrun. injection Hrun as <- _. cbn [pres_map] in Hres.
+  destruct (consistency n weakly (dict_values d)); cbn [res_of] in Hres; [discriminate|reflexivity]. Qed.
+
+Lemma partition_nonempty weakly D P : D <> [] -> consistency n weakly D = Some P -> P <> [].
+Proof. intros HD H. destruct weakly; unfold consistency, part_ext, part_strict in H.
+  - apply ext_nonempty in H. exact H.
+  - apply loop_sound in H as [_ Hp]. intros ->. simpl in Hp. apply Permutation_nil in Hp.
+    apply map_eq_nil in Hp. congruence. Qed.
+
+(* a base the generated consistency() rejects is refused by the model, and conversely *)
+Theorem e2e_refusal s weakly (d:dict Z cond) q u : dict_values d <> [] ->
+  exists r st, py_consistency n (S (length d)) (Build_pybase d) u weakly = Return (r, st) /\
+    (is_pfalse r = true <-> infer n s weakly (dict_values d) q = Refuse).
+Proof. intros HD. destruct (tie_consistency n weakly d u) as [r [st [Hrun Hres]]]. exists r, st. split; [exact Hrun|].
+  unfold infer. destruct (dict_values d) as [|c0 D0] eqn:ED; [congruence|]. rewrite <- ED in *.
+  destruct (consistency n weakly (dict_values d)); destruct r; cbn [pres_map res_of is_pfalse] in *; try discriminate;
+  split; intros; try discriminate; reflexivity. Qed.
+
+End TieConsTop.
